@@ -1111,7 +1111,7 @@ Section Transfer.
   Hypothesis Htree : forall s s', cc_tree_of s = cc_tree_of s' -> P s -> P s'.
   Hypothesis Hcreate : forall s p, A (Create p) -> P s -> P (fst (m_create s (normalize_path p))).
   Hypothesis Hofcreate : forall s p fl pm s' x, A (OpenFile p fl pm) ->
-      cc_open_or_create s (normalize_path p) fl (Z.land pm chmod_bits) = Some (s', x) -> P s -> P s'.
+      cc_open_or_create s (normalize_path p) fl (Z.land pm chmod_bits) = inr (s', x) -> P s -> P s'.
   Hypothesis Hremoveall : forall s p, A (RemoveAll p) -> P s -> P (fst (m_removeall s (normalize_path p))).
   Hypothesis Hmkdir : forall s p pm, A (Mkdir p pm) \/ A (MkdirAll p pm) -> lookup s (normalize_path p) = None ->
                                      P s -> P (cc_mkdir_body s (normalize_path p) (Z.land pm chmod_bits)).
@@ -1172,10 +1172,11 @@ Section Transfer.
         pose proof (Hremoveall s0 p0 HA HP) as H; destruct (m_removeall s0 (normalize_path p0)) as [s1 r]; cbn in H;
         destruct r; first [exact H|exact HP]
       | |- context [cc_mkdir_body ?s0 (normalize_path ?p0) _] =>
-        destruct (lookup s0 (normalize_path p0)) eqn:Hl; [exact HP|]; apply Hmkdir; auto
+        destruct (lookup s0 (normalize_path p0)) eqn:Hl; [exact HP|];
+        destruct (below_file s0 (normalize_path p0)); [exact HP|]; apply Hmkdir; auto
       | |- context [cc_open_or_create ?s0 (normalize_path ?p0) (cc_flag (OpenFile _ ?fl ?pm)) _] =>
         cbn [cc_flag cc_perm];
-        destruct (cc_open_or_create s0 (normalize_path p0) fl (Z.land pm chmod_bits)) as [[s1 x]|] eqn:Hoc; [|exact HP];
+        destruct (cc_open_or_create s0 (normalize_path p0) fl (Z.land pm chmod_bits)) as [k|[s1 x]] eqn:Hoc; [exact HP|];
         pose proof (Hofcreate s0 p0 fl pm s1 x HA Hoc HP) as H; eapply Htree; [|exact H]; reflexivity
       end ].
     - (* AOfLookup: the handle is finished inside the section *)
